@@ -16,6 +16,7 @@ B6  under any interleaving of atomic calls the store is monotone.
 -/
 import DepsDev.Proofs.C18Flatten
 import DepsDev.Proofs.C18Store
+import DepsDev.Proofs.C18Unambiguous
 
 namespace DepsDev.Props.C18
 open DepsDev
@@ -116,6 +117,28 @@ theorem b2 (m : MatchReq) (S : Service) (st : Store) (vk : VersionKey) (reqs : N
       rw [matchingVersions_bundle m _ _ _ hbund, h4]
       simp only [bundleReq, applyWrites_apply, mangledOf_ne_name vk b, if_false, hl]
       simp [toEntry, bundledVersionOf, hvk, hon]
+
+/-- B2 without the distinct-names hypothesis. -/
+def B2_all_responses : Prop :=
+  ∀ (m : MatchReq) (S : Service) (st : Store) (vk : VersionKey) (reqs : NpmReqs) (ds : List ReqVer),
+    isNPMBundle vk.name = false → S.getRequirements vk.name vk.version = some (some reqs) →
+    (requirements S st vk).1 = .ok ds →
+    ∀ b ∈ reqs.bundled,
+      matchingVersions m S (requirements S st vk).2 (bundleReq vk b).key = .ok [bundledVersionOf vk b]
+
+/-- why `KeysNodup` is there: a (malformed) response listing two bundles at ONE path
+with different versions leaves the parent with a requirement for the first version
+that matches nothing — only the last entry at a path is stored. A domain precondition
+(an installation path holds one package), not a finding. -/
+theorem b2_all_responses_false : ¬ B2_all_responses := by
+  intro h
+  let b1 : Bundle := ⟨nodeModulesPrefix ++ [98], [98], [49], {}⟩
+  let b2 : Bundle := ⟨nodeModulesPrefix ++ [98], [98], [50], {}⟩
+  let rq : NpmReqs := { bundled := [b1, b2] }
+  let S : Service := ⟨fun _ => none, fun _ _ => none, fun _ _ => some (some rq)⟩
+  have := h (fun _ _ => .ok []) S Store.empty ⟨[97], .concrete, [49]⟩ rq _ (by decide) rfl rfl b1 (by simp [rq])
+  revert this
+  decide
 
 /-! ## B3 -/
 
@@ -329,12 +352,137 @@ theorem b5_partial (m : MatchReq) (sortVers : List Version → List Version) (me
     ∀ (cs : List Call) (st : Store), StoreInv S st → WellAsked m sortVers mentioned S F st cs →
       AgreeAll (runCalls m S st cs).1 (cs.map (Local.exec m (load sortVers mentioned S F)))
   | [], _, _, _ => trivial
-  | c :: cs, st, hI, hw =>
+  | c :: cs, _, hI, hw =>
     ⟨b5_call hF hperm hsort hcoh hI c hw.1,
       b5_partial m sortVers mentioned S F hF hperm hsort hcoh cs _ (exec_inv m c hI) hw.2⟩
 
 /-- `F(S)` exists for every unambiguous service, so `b5_partial` is not vacuous in `F`. -/
 theorem b5_F_exists (S : Service) (hU : Unambiguous S) : ∃ F : Store, ∀ k e, F k = some e ↔ Written S k e :=
   exists_F hU
+
+/-- B6's hypothesis is checkable: `F(S)` is a function whenever no served version
+string contains '>' (names asked through the plain path never do). -/
+theorem b6_unambiguous_of_gtfree (S : Service) (h : VersionsGtFree S) : Unambiguous S :=
+  unambiguous_of_gtfree S h
+
+/-! ## Non-vacuity: the hypotheses are satisfiable together
+
+`a@1` declares the aliased dependency `"x": "npm:@s/c@^1"` and bundles `b@1.5`
+(`node_modules/b`) which itself bundles `@s/c@2` (`node_modules/b/node_modules/@s/c`);
+the response lists the nested bundle first. -/
+namespace Example
+
+def root : VersionKey := ⟨[97], .concrete, [49]⟩
+def bundleB : Bundle := ⟨nodeModulesPrefix ++ [98], [98], [49, 46, 53], {}⟩
+def bundleC : Bundle := ⟨nodeModulesPrefix ++ [98] ++ nodeModulesSep ++ [64, 115, 47, 99], [64, 115, 47, 99], [50], {}⟩
+def reqs : NpmReqs :=
+  { dependencies := { dependencies := [⟨[120], npmPrefix ++ [64, 115, 47, 99, 64, 94, 49]⟩] },
+    bundled := [bundleC, bundleB] }
+
+def S : Service where
+  getPackage n := if n = [97] then some [⟨[49], true⟩] else none
+  getVersion n v := if n = [97] ∧ v = [49] then some ⟨true, []⟩ else none
+  getRequirements n v := if n = [97] ∧ v = [49] then some (some reqs) else none
+
+/-- `Requirements(a@1)`: the alias is resolved to `@s/c` / `^1` / KnownAs `x`, the
+directly bundled `b` is required under `a>1>b` with version `1.5`. -/
+def rootReqs : List ReqVer :=
+  [⟨⟨[64, 115, 47, 99], .requirement, [94, 49]⟩, { knownAs := some [120] }⟩,
+   ⟨⟨[97, 62, 49, 62, 98], .requirement, [49, 46, 53]⟩, {}⟩]
+
+example : isNPMBundle root.name = false := by decide
+example : S.getRequirements root.name root.version = some (some reqs) := by decide
+example : KeysNodup root reqs := by unfold KeysNodup; decide
+example : (requirements S Store.empty root).1 = .ok rootReqs := by decide
+/-- the nested bundle is reachable under `a>1>b>@s/c` and its parent `a>1>b` requires it. -/
+example : mangledOf root bundleC = [97, 62, 49, 62, 98, 62, 64, 115, 47, 99] := by decide
+example : (requirements S (requirements S Store.empty root).2 ⟨mangledOf root bundleB, .concrete, [49, 46, 53]⟩).1 =
+    .ok [bundleReq root bundleC] := by decide
+example : hasRange [64, 115, 47, 99, 64, 94, 49] = true := by decide
+
+/-- B6's and B5's service hypotheses hold for it. -/
+theorem versionsGtFree : VersionsGtFree S := by
+  intro n v h
+  unfold S at h
+  simp only at h
+  by_cases hc : n = [97] ∧ v = [49]
+  · rw [hc.2]; decide
+  · simp [hc] at h
+
+theorem unambiguous : Unambiguous S := unambiguous_of_gtfree S versionsGtFree
+
+theorem coherent : Coherent S := by
+  intro n v _
+  unfold S
+  simp only
+  by_cases hn : n = [97]
+  · subst hn
+    by_cases hv : v = [49]
+    · subst hv; simp
+    · simp [hv]
+      exact fun e => hv e.symm
+  · simp [hn]
+
+/-- an exact matcher (`MatchRequirement` reading a version string as "exactly it"). -/
+def exactMatch : MatchReq := fun vk vs => .ok (vs.filter fun v => v.key.version = vk.version)
+
+/-- a well-asked sequence: `Requirements(a@1)`, then the bundle `a>1>b` through
+`MatchingVersions` of the parent's requirement, `Version` and `Requirements` of the
+Concrete key it returned. -/
+def calls : List Call :=
+  [.requirements root, .matching (bundleReq root bundleB).key,
+   .version ⟨mangledOf root bundleB, .concrete, [49, 46, 53]⟩,
+   .requirements ⟨mangledOf root bundleB, .concrete, [49, 46, 53]⟩]
+
+theorem wellAsked (F : Store) : WellAsked exactMatch id (fun _ => false) S F Store.empty calls := by
+  have hst : (requirements S Store.empty root).2 (mangledOf root bundleB) =
+      some ⟨bundledVersionOf root bundleB, [bundleReq root bundleC]⟩ := by decide
+  refine ⟨?_, ?_, ?_, ?_, trivial⟩
+  · exact ⟨rfl, by decide⟩
+  · refine ⟨fun _ => ?_, fun e he => ?_⟩
+    · show (requirements S Store.empty root).2 (mangledOf root bundleB) ≠ none
+      rw [hst]; simp
+    · have he' : (requirements S Store.empty root).2 (mangledOf root bundleB) = some e := he
+      rw [hst] at he'
+      cases he'
+      decide
+  · refine ⟨fun _ => ?_, fun e he => ?_⟩
+    · show (requirements S Store.empty root).2 (mangledOf root bundleB) ≠ none
+      rw [hst]; simp
+    · have he' : (requirements S Store.empty root).2 (mangledOf root bundleB) = some e := he
+      rw [hst] at he'
+      cases he'
+      rfl
+  · refine ⟨fun _ => ?_, fun e he => ?_⟩
+    · show (requirements S Store.empty root).2 (mangledOf root bundleB) ≠ none
+      rw [hst]; simp
+    · have he' : (requirements S Store.empty root).2 (mangledOf root bundleB) = some e := he
+      rw [hst] at he'
+      cases he'
+      rfl
+
+/-- all hypotheses of `b5_partial` hold together on the example. -/
+example : ∃ F : Store, (∀ k e, F k = some e ↔ Written S k e) ∧
+    AgreeAll (runCalls exactMatch S Store.empty calls).1
+      (calls.map (Local.exec exactMatch (load id (fun _ => false) S F))) := by
+  obtain ⟨F, hF⟩ := b5_F_exists S unambiguous
+  exact ⟨F, hF, b5_partial exactMatch id (fun _ => false) S F hF (fun _ => List.Perm.refl _)
+    (fun _ _ => rfl) coherent calls Store.empty (storeInv_empty S) (wellAsked F)⟩
+
+end Example
+
+/- Ties (DESIGN 3.3): which model definitions each theorem unfolds, and the
+correspondence stream that ties them to util/resolve/api.go.
+
+theorem                               model definitions                                   tie
+b1_general b1 b2 b3_after_requirements  requirements buildAllDeps stepBundle applyWrites    ops apiclient/resolve (r: then v:/s:/r:/m: on bundles)
+                                      mangledName pkgsOf versions matchingVersions
+b3                                    version versions requirements matchingVersions      ops apiclient (calls on names with '>')
+b4_split_last b4_partial b4_flatten   addDep splitLast cutPrefix flattenNPMDeps           ops apiclient (small-scope exhaustive requirement strings), classify
+b4_full_false b4_norange_*            addDep                                              known-finding witnesses F-C18-alias-norange
+b6_*                                  exec requirements applyWrites (atomic steps)        ops conc, racedet (runtime facts: mutex, races)
+b5_partial                            exec, Local.exec, load                              op resolve + oracle b5 (real npm resolver over both real clients)
+No Gen constants are used (C18 has no translator tables).
+-/
 
 end DepsDev.Props.C18
